@@ -409,12 +409,130 @@ fn slab_from(v: &Value) -> SlabCase {
     }
 }
 
+
+/// Slab under an arbitrary (not necessarily bijective) reorder mapping: `set_reorder` takes any
+/// vector, so the paired borrow's own checks are all that keeps the two slices apart and inside
+/// the buffer. Whatever is accepted must be in bounds and disjoint; refusing is always fine.
+#[derive(Debug, Clone)]
+pub struct BadMapCase {
+    count: usize,
+    ss: usize,
+    mapping: Vec<u16>,
+    ops: Vec<SlabOp>,
+}
+
+fn badmap_strategy() -> impl Strategy<Value = BadMapCase> {
+    let op = prop_oneof![
+        2 => (any::<u16>(), any::<u16>()).prop_map(|(dest, src)| SlabOp::Add { dest, src }),
+        2 => (any::<u16>(), any::<u16>(), 2u8..=255).prop_map(|(dest, src, scalar)| SlabOp::Fma { dest, src, scalar }),
+        4 => (any::<u16>(), any::<u16>()).prop_map(|(dest, src)| SlabOp::Pair { dest, src }),
+    ];
+    (1usize..=12, prop_oneof![1usize..=9, Just(64usize), Just(65usize)], proptest::collection::vec(any::<u16>(), 1..=14), proptest::collection::vec(op, 1..30))
+        .prop_map(|(count, ss, mapping, ops)| BadMapCase { count, ss, mapping, ops })
+}
+
+fn badmap_check(c: &BadMapCase, st: &mut Stats) -> Result<(), String> {
+    let mut slab = SymbolSlab::with_zeros(c.count, c.ss);
+    for i in 0..c.count {
+        slab.get_mut(i).fill(i as u8 + 1);
+    }
+    let base = slab.get(0).as_ptr() as usize;
+    let end = base + c.count * c.ss;
+    // entries over 0..=count (count itself lies outside the slab), duplicates likely
+    let order: Vec<usize> = c.mapping.iter().map(|r| idx(*r, c.count)).collect();
+    slab.set_reorder(order.clone());
+    let dup = (0..order.len()).any(|i| (0..i).any(|j| order[i] == order[j]));
+    let oob = order.iter().any(|&p| p >= c.count);
+    st.class_if(dup, "mapping with two logical indices on one physical symbol");
+    st.class_if(oob, "mapping with an entry outside the slab");
+    let (mut accepted, mut refused) = (0u64, 0u64);
+    for (n, op) in c.ops.iter().enumerate() {
+        let (dest, src) = match op {
+            SlabOp::Add { dest, src } | SlabOp::Fma { dest, src, .. } | SlabOp::Pair { dest, src } => (idx(*dest, order.len()), idx(*src, order.len())),
+            SlabOp::Mul { .. } => continue,
+        };
+        let phys = |i: usize| order.get(i).copied();
+        let in_bounds = matches!((phys(dest), phys(src)), (Some(a), Some(b)) if a < c.count && b < c.count);
+        let aliased = in_bounds && phys(dest) == phys(src);
+        // arithmetic through the pair only where it cannot leave the buffer even if accepted
+        let op = if in_bounds { op.clone() } else { SlabOp::Pair { dest: 0, src: 0 } };
+        let r = catch(|| match &op {
+            SlabOp::Add { .. } => slab.add_assign(dest, src),
+            SlabOp::Fma { scalar, .. } => slab.fma(dest, src, &Octet::new(*scalar)),
+            _ => {
+                let (d, s) = slab.get_pair_mut(dest, src);
+                let (dp, dl, sp, sl) = (d.as_ptr() as usize, d.len(), s.as_ptr() as usize, s.len());
+                if dl != c.ss || sl != c.ss {
+                    panic!("VERIF: pair borrow returned slices of length {dl}/{sl}, symbol size is {}", c.ss);
+                }
+                if dp < base || dp + dl > end || sp < base || sp + sl > end {
+                    panic!("VERIF: pair borrow returned a slice outside the slab buffer");
+                }
+                if dp < sp + sl && sp < dp + dl {
+                    panic!("VERIF: pair borrow returned overlapping slices (dest {dest}, src {src})");
+                }
+            }
+        });
+        match r {
+            Err(p) if p.contains("VERIF:") => return Err(format!("op {n} {op:?} under mapping {order:?} ({} symbols): {p}", c.count)),
+            Err(_) => refused += 1,
+            Ok(()) => {
+                if aliased {
+                    return Err(format!(
+                        "op {n} {op:?} under mapping {order:?}: logical {dest} and {src} are both physical symbol {:?}; the operation was accepted, i.e. ran on overlapping mutable and shared slices",
+                        phys(dest)
+                    ));
+                }
+                accepted += 1;
+            }
+        }
+    }
+    st.class_n("pairs accepted (in bounds, disjoint)", accepted);
+    st.class_n("pairs refused", refused);
+    if dup || oob {
+        st.nt(fnv_u64s(&[c.count as u64, c.ss as u64, crate::util::fnv_u64s(&order.iter().map(|&x| x as u64).collect::<Vec<_>>()), c.ops.len() as u64]));
+    }
+    st.sample(|| json!({"count": c.count, "symbol_size": c.ss, "mapping": order, "ops": c.ops.len()}));
+    Ok(())
+}
+
+fn badmap_json(c: &BadMapCase) -> Value {
+    let inner = SlabCase { count: c.count, ss: c.ss, mapping_seed: None, seed: 0, ops: c.ops.clone() };
+    let mut v = slab_json(&inner);
+    v["mapping"] = json!(c.mapping);
+    v
+}
+
+fn badmap_from(v: &Value) -> BadMapCase {
+    let inner = slab_from(&{
+        let mut w = v.clone();
+        w["seed"] = json!(0);
+        w
+    });
+    BadMapCase { count: inner.count, ss: inner.ss, mapping: v["mapping"].as_array().unwrap().iter().map(|x| x.as_u64().unwrap() as u16).collect(), ops: inner.ops }
+}
+
+fn slab_sig(m: &str) -> String {
+    let kind = if m.contains("overlapping") {
+        "overlap"
+    } else if m.contains("outside the slab") {
+        "outside"
+    } else if m.contains("was accepted") {
+        "accepted-illegal-pair"
+    } else if m.contains("not the destination, changed") {
+        "wrote-other-symbol"
+    } else {
+        "other"
+    };
+    format!("slab:{kind}")
+}
+
 pub fn run(ctx: &Ctx, rep: &mut Report) {
     if ctx.only.as_deref() == Some("guard-child") {
         guard_child(ctx, rep);
         return;
     }
-    rep.rule = "guard pages: every kernel entry point (each supported private kernel + public dispatchers) x op x length in 0..=320 U {511,512,513,1280,4099} x {end of both operands flush against a PROT_NONE page, start flush after one} x 4 (quick) / 8 (thorough) scalars, in a child process; a fault is reported with the case recorded in a shared file; the unguarded side is canary-checked (wrong values are counted but judged by C11, not here). Slab: generated (count 1..=40, symbol size around 1..9 / 60..70 / 120..136, optional reorder permutation, 1..40 operations add/fma/mul/pair-borrow with indices that include dest == src and one-past-the-end): returned slices must lie inside the slab and be disjoint, illegal pairs must panic, and no symbol other than the destination may change. AddressSanitizer replay of a generated corpus through the fuzz targets is run by the driver and merged. Non-trivial = kernel case with length not a multiple of the kernel width and an operand flush against a guard page; slab case with a pair borrow under a reorder mapping.".into();
+    rep.rule = "guard pages: every kernel entry point (each supported private kernel + public dispatchers) x op x length in 0..=320 U {511,512,513,1280,4099} x {end of both operands flush against a PROT_NONE page, start flush after one} x 4 (quick) / 8 (thorough) scalars, in a child process; a fault is reported with the case recorded in a shared file; the unguarded side is canary-checked (wrong values are counted but judged by C11, not here). Slab: generated (count 1..=40, symbol size around 1..9 / 60..70 / 120..136, optional reorder permutation, 1..40 operations add/fma/mul/pair-borrow with indices that include dest == src and one-past-the-end): returned slices must lie inside the slab and be disjoint, illegal pairs must panic, and no symbol other than the destination may change. Slab under an arbitrary mapping (set_reorder accepts any vector: entries over 0..=count, duplicates likely, 1..14 entries): every pair the slab accepts must be two in-bounds disjoint slices and an add/fma on two logical indices of one physical symbol must be refused. AddressSanitizer replay of a generated corpus through the fuzz targets is run by the driver and merged. Non-trivial = kernel case with length not a multiple of the kernel width and an operand flush against a guard page; slab case with a pair borrow under a reorder mapping.".into();
     rep.assumptions.push("dynamic detection: only executed paths; NEON kernels excluded (x86-64 host); the packed operand of fma_binary lives in a Vec and is covered by the ASan detector, not by guard pages".into());
     if ctx.wants("guard") {
         rep.absorb("guard", guard_parent(ctx));
@@ -423,20 +541,11 @@ pub fn run(ctx: &Ctx, rep: &mut Report) {
         let n = ctx.tier.pick(300_000u64, 3_000_000);
         rep.absorb(
             "slab",
-            run_sharded("C12", "slab", ctx.seed, n, 32, slab_strategy, slab_check, slab_json, |_, m| {
-                let kind = if m.contains("overlapping") {
-                    "overlap"
-                } else if m.contains("outside the slab") {
-                    "outside"
-                } else if m.contains("was accepted") {
-                    "accepted-illegal-pair"
-                } else if m.contains("not the destination, changed") {
-                    "wrote-other-symbol"
-                } else {
-                    "other"
-                };
-                format!("slab:{kind}")
-            }),
+            run_sharded("C12", "slab", ctx.seed, n, 32, slab_strategy, slab_check, slab_json, |_, m| slab_sig(m)),
+        );
+        rep.absorb(
+            "slab-anymap",
+            run_sharded("C12", "slab-anymap", ctx.seed, n / 3, 32, badmap_strategy, badmap_check, badmap_json, |_, m| slab_sig(m)),
         );
     }
 }
@@ -444,6 +553,7 @@ pub fn run(ctx: &Ctx, rep: &mut Report) {
 pub fn replay(sub: &str, case: &Value) -> Result<(), String> {
     match sub {
         "slab" => slab_check(&slab_from(case), &mut Stats::new()),
+        "slab-anymap" => badmap_check(&badmap_from(case), &mut Stats::new()),
         "guard" => {
             // re-run the single case under the recorded placement; a fault kills this process,
             // which the driver reports as the violation reproducing
